@@ -589,6 +589,10 @@ func (association *Association) saveAssociation(clear bool, values ...interface{
 
 			// TODO support save slice data, sql with case?
 			association.Error = associationDB.Updates(reflectValue.Index(i).Addr().Interface()).Error
+			if association.Error != nil {
+				// the next owner's turn would overwrite the error of this one
+				return
+			}
 		}
 	case reflect.Struct:
 		// clear old data
